@@ -375,7 +375,7 @@ def check_score(ctx, case):
         ctx.cls("score.weights_matter")
     if n >= 3 and sum(changes) >= 1:
         ctx.nontrivial(["score", rt.canon(ordered=True), dtype, m["rows"], weights, gam_arg])
-    ctx.sample("score:%s:%s" % (dtype, rooting), case)
+    ctx.sample("score:" + rooting, case)
 
     # -- brute force (oracle cross-check, then the library against it)
     if n <= 5:
@@ -541,7 +541,8 @@ def check_history(ctx, case):
             ctx.cls("history.up_pass_between_calls")
     if interesting:
         ctx.nontrivial(["history", rt.canon(ordered=True), mats, calls])
-    ctx.sample("history:%d" % len(mats), case)
+    if len(mats) >= 2:
+        ctx.sample("history", case)
 
 
 # ---------------------------------------------------------------------------
@@ -590,7 +591,7 @@ def check_final(ctx, case):
     if differs:
         ctx.cls("final.up_pass_changed_a_set")
         ctx.nontrivial(["final", rt.canon(ordered=True), m])
-    ctx.sample("final:" + m["dtype"], case)
+    ctx.sample("final", case)
 
 
 SUBCHECKS = {"score": check_score, "history": check_history, "final": check_final}
